@@ -586,7 +586,10 @@ func (c *control) dirJustify(colon, at bool, params []any) {
 		padchar []byte
 	)
 	mincol = c.getIntParam(0, params, 0, true)
-	colinc = c.getIntParam(1, params, 1, true)
+	if colinc = c.getIntParam(1, params, 1, true); colinc < 1 {
+		// Padding is added colinc characters at a time, zero would never end.
+		c.invalidDirParam(c.str, c.pos)
+	}
 	minpad = c.getIntParam(2, params, 0, true)
 	padchar = c.getCharParam(3, params, []byte{' '})
 
@@ -1370,7 +1373,10 @@ func (c *control) dirAS(colon, at bool, params []any, p *slip.Printer) {
 	minpad := 0
 	padchar := []byte{' '}
 	mincol = c.getIntParam(0, params, mincol, true)
-	colinc = c.getIntParam(1, params, colinc, true)
+	if colinc = c.getIntParam(1, params, colinc, true); colinc < 1 {
+		// Padding is added colinc characters at a time, zero would never end.
+		c.invalidDirParam(c.str, c.pos)
+	}
 	minpad = c.getIntParam(2, params, minpad, true)
 	padchar = c.getCharParam(3, params, padchar)
 	width := utf8.RuneCount(out) + minpad // columns are characters, not bytes
